@@ -148,6 +148,13 @@ def tlc_hs(wd, tr, rng, forced=None):
     r = vlib.run_tlc(name, name + ".cfg", ["Net.tla"], workdir=wd, timeout=1500, keep_prints=["CASE"], deadlock=True, heap="12g")
     if r.violation:
         raise vlib.CheckError("Net model (handshake part) violates %s at design level:\n%s" % (r.violation, "".join(r.error_trace[-2:])))
+    if not forced:
+        # falsifiability of the invariants: without the named deviations the model of the current code must violate them
+        for inv in ("StrictAttributed", "StrictNoCrash"):
+            n2 = write_mc(wd, "MC_hs_" + inv, base_consts(Part="hs", CatMode="near"), [inv])
+            r2 = vlib.run_tlc(n2, n2 + ".cfg", ["Net.tla"], workdir=wd, timeout=600, deadlock=True, heap="8g")
+            if r2.violation != inv:
+                raise vlib.CheckError("Net model: %s is not falsified although the model contains the deviation (vacuous invariant?)" % inv)
     cases = {}
     for _, o in r.prints:
         cases[hs_key(o)] = o
@@ -173,13 +180,17 @@ def hs_execute(drv, material, cases, wd, singles, par_batches=2, batch=1200):
     rounds = 0
     while pending:
         rounds += 1
-        if rounds > 30:
-            raise vlib.CheckError("handshake batches keep dying; giving up")
+        if rounds > 12 or batch <= 30:
+            alone += pending             # the batches keep dying: decide every remaining case in its own process
+            pending = []
+            break
         chunks = [pending[i:i + batch] for i in range(0, len(pending), batch)]
         res = run_children(drv, "net-hs", [hs_job(material, ch) for ch in chunks], wd, "hs%d" % rounds, par_batches, 1500)
         pending = []
+        any_died = False
         for ch, (rc, evs, err) in zip(chunks, res):
             died, what = crash_info(rc, err)
+            any_died = any_died or died
             started = set(e["c"] for e in evs if e["e"] == "start")
             ended = {e["c"]: e for e in evs if e["e"] == "end"}
             if not died and not any(e["e"] == "done" for e in evs):
@@ -203,6 +214,11 @@ def hs_execute(drv, material, cases, wd, singles, par_batches=2, batch=1200):
             done_here = [c["id"] for c in ch if c["id"] in out]
             if spurious and not died and done_here:
                 out[min(done_here)]["spurious"] += spurious
+        if any_died:
+            batch = max(batch // 5, 30)      # a crash the model did not predict: smaller batches lose less per crash
+            par_batches = 6
+    if len(alone) > 6000:
+        raise vlib.CheckError("%d handshake cases would have to run one per process; giving up" % len(alone))
     if alone:
         res = run_children(drv, "net-hs", [hs_job(material, [c], workers=1, listeners=1, grace=150, final=150) for c in alone], wd, "hs1", 8, 300)
         for c, (rc, evs, err) in zip(alone, res):
@@ -411,6 +427,10 @@ def tlc_fr(wd, tr):
             else:
                 panics.add(k)
         res.append((consts, r))
+    n2 = write_mc(wd, "MC_fr_strict", base_consts(Part="fr", Progs=list(progs), Faults=FAULTS, QCap=1, WCap=1), ["StrictNoPanic"])
+    r2 = vlib.run_tlc(n2, n2 + ".cfg", ["Net.tla"], workdir=wd, timeout=600, deadlock=True, heap="8g")
+    if r2.violation != "StrictNoPanic":
+        raise vlib.CheckError("Net model: StrictNoPanic is not falsified although the model contains the enqueue-timeout deviation")
     if not shapes:
         raise vlib.CheckError("Net model printed no scenario shapes")
     return res, [shapes[k] for k in sorted(shapes)], panics
@@ -693,6 +713,9 @@ def run_c17(pid, only=None):
         lostonly = viols.get(s["id"]) and all(o["mon"] in ("Delivered", "FaultIsolated") for o in viols[s["id"]])
         if incon or lostonly:
             retry.append(s)
+    if sum(1 for s in retry if viols.get(s["id"])) > 4:
+        # missing deliveries in many scenarios are not a matter of load: no second chance (and no hours of re-runs)
+        retry = [s for s in retry if not viols.get(s["id"])]
     retried = 0
     skipped = []
     for s in retry:
